@@ -194,6 +194,9 @@ def _lint_file_worker(args: tuple[Path, Path, dict]) -> list[dict]:
         violations = orchestrator.lint_file(file_path)
         # Convert to dicts for pickling
         return [v.to_dict() for v in violations]
+    except ValueError:
+        # Configuration validation errors are user-facing, as in the sequential path
+        raise
     except Exception:
         _verif_tap("_lint_file_worker", None, file_path)
         logger.exception("Worker error processing file: %s", file_path)
@@ -445,6 +448,9 @@ class Orchestrator:  # thailint: ignore[srp]
         """Extract violations from a completed future, handling errors."""
         try:
             return [Violation.from_dict(d) for d in future.result()]
+        except ValueError:
+            # Re-raise configuration validation errors reported by a worker
+            raise
         except Exception:
             _verif_tap("_extract_violations_from_future", None, "")
             logger.exception("Error extracting violations from worker future")
